@@ -85,6 +85,11 @@ CHECKS["C11"] = ("exploration",
     "Enumerated: all 108 table keys, pattern keys and user keys x 5 routes with canonical representations. Generated: histories of set/delete on a Configuration (item, update(dict), update(**kw), Configuration.update, constructor; keys in random case; every value representation of the quantifier plus rejected inputs), hand-written and saved configuration files, files written by store_metadata / dict export / raw h5py attributes and carried through export, filtered export, compress, repack, condense, split, join. After every operation the whole section is compared with the model (documented type, equal value, untouched entries unchanged, rejected inputs warn and store nothing, idempotence, case-insensitive lookup); HDF5 attribute types after writing; configuration after re-open equals the normalised originals. Exploration + exhaustive key sweep.",
     "The key table and normalisation rules are an own transcription of the documented tables (a key-set mismatch with dclab is itself a failure); invalid representations may raise or store a value of the documented type; text files are ASCII without '#'/quotes.",
     "DESIGN.md §5 C11, notes/C11.md")
+CHECKS["C02"] = ("exploration",
+    "Hypothesis-generated sources/selections/feature lists/options (+87 enumerated essential cases) + reference model computed from the generated arrays (composition of basin map, parent selections and the final selection), read back through raw h5py and dclab",
+    "Sources: in-memory dict, dict with non-sliceable (tdms-like) columns, RTDCWriter files, files with short features, basin-backed files (unmapped/mapped), the 7 tdms fixtures; hierarchy depth 0-2; selections empty/full/single/straddling the export chunk size; export.hdf5 with feature subsets incl. duplicates / all / None, logs, tables, basins, skip_checks, prefixes, compression, path variants; export.tsv. Oracles: exported feature set, per-feature event count, exact NaN-aware values for every feature kind, stored dtypes, metadata incl. user section with only the documented changes, logs/tables, source filter untouched, TSV cells within the exact bound of %.10e. Exploration, not proof.",
+    "Expected content is computed from the generated arrays, never read through dclab (tdms: a second sequentially read instance); the selection itself is taken from ds.filter.all (C03's subject); stored basin definitions are C07's subject.",
+    "DESIGN.md §5 C02, notes/C02.md")
 NOT_APPLICABLE = {}
 
 def main():
